@@ -200,6 +200,8 @@ class ConfigurationMultiLevel(Configuration):
             activate_spot_statistics=activate_spot_statistics,
             nb_of_processes=nb_of_processes,
         )
+        if initial_mc_paths < 1:
+            raise ValueError("expected initial_mc_paths >= 1 (no level can be estimated without a path)")
         if initial_level > maximum_level:
             raise ValueError(
                 "expected initial_level <= maximum_level (no level above the maximum level is simulated)"
